@@ -7,10 +7,13 @@
 //	syscontracts/{staking,gov}/generated.go : the ABI JSON of `XMetaData = &bind.MetaData{ABI: "..."}`: every entry of type
 //	                                      "event": name, anonymous, inputs (type, indexed, tuple components) and its
 //	                                      id = keccak256 of the canonical signature (computed here)
-//	adapter/{staking,gov}/adapter.go    : NewHookAdapter: the address constant the hook filters on, the ABI variable it
-//	                                      parses, and the `switch name { case "E": handlers[event.ID] = hook.M }` table
-//	adapter/{staking,gov}/handler.go    : every handler method M: the event name it passes to syscontracts.ParseLog and the
-//	                                      SDK message types it builds (composite literals &pkg.MsgX{...})
+//	adapter/{staking,gov}/*.go          : (every non-test, non-hook file of the package) the syscontracts address constant given
+//	                                      to common.HexToAddress; the association event name -> handler method, in any of
+//	                                      the forms `switch name { case "E": … = x.M }`, map literal `{"E": x.M}`, slice of
+//	                                      structs `{event: "E", handle: x.M}` / `{"E", x.M}` (how the table is registered —
+//	                                      loop, helper method, lookup map — is behaviour the differential run checks);
+//	                                      every method M that calls syscontracts.ParseLog: the event name it passes and
+//	                                      the SDK message types it builds (composite literals &pkg.MsgX{...})
 //	app/app.go (func NewTeleport)       : the arguments of evmkeeper.NewMultiEvmHooks(...) in order, each resolved to the
 //	                                      adapter package that built it (WStaking / WGov / WOther); the bank keeper handed
 //	                                      to stakingkeeper.NewKeeper and govkeeper.NewKeeper, resolved through the local
@@ -19,9 +22,10 @@
 //	                                      keeper is given the staking keeper built with that bank keeper
 //
 // Identifiers are resolved through import paths and assignments, never compared by variable name, so renaming is
-// silent.  A source that does not parse or lacks the function / literal altogether => exit 1 (a failed tie);
-// a construct that parses but cannot be resolved is emitted as WOther / BKUnknown / TOther so that the Coq
-// obligation over the generated term fails (Props/C17_wiring.v), never skipped.
+// silent.  The translator degrades per item and never exits non-zero on the source (only when it cannot write its
+// output): a file that does not parse, a missing function / literal or an unresolvable construct yields an empty
+// table / WOther / BKUnknown / TOther, so that the Coq obligation over the generated term fails (Props/C17_wiring.v)
+// for that item only — never skipped, and never breaking the build of other properties.
 package main
 
 import (
@@ -131,13 +135,39 @@ func coqList(items []string) string {
 	return "[" + strings.Join(items, ";\n   ") + "]"
 }
 
+func warn(f string, a ...interface{}) {
+	fmt.Fprintf(os.Stderr, "adapterwiring: warning: "+f+"\n", a...)
+}
+
+// parseFile: an unreadable / unparsable file degrades to an empty file (the Coq obligations over the
+// generated terms then fail for the items that were to come from it); the translator itself never fails on it.
 func parseFile(repo, rel string) (*token.FileSet, *ast.File) {
 	fset := token.NewFileSet()
 	f, err := parser.ParseFile(fset, filepath.Join(repo, rel), nil, 0)
-	if err != nil {
-		die("%v", err)
+	if err != nil || f == nil {
+		warn("%s: %v", rel, err)
+		f = &ast.File{Name: ast.NewIdent("missing")}
 	}
 	return fset, f
+}
+
+// packageFiles parses every non-test, non-verif-hook Go file of a directory.
+func packageFiles(repo, dir string) []*ast.File {
+	var out []*ast.File
+	ents, err := os.ReadDir(filepath.Join(repo, dir))
+	if err != nil {
+		warn("%s: %v", dir, err)
+		return nil
+	}
+	for _, e := range ents {
+		n := e.Name()
+		if e.IsDir() || !strings.HasSuffix(n, ".go") || strings.HasSuffix(n, "_test.go") || strings.HasSuffix(n, "_verif.go") {
+			continue
+		}
+		_, f := parseFile(repo, filepath.Join(dir, n))
+		out = append(out, f)
+	}
+	return out
 }
 
 // imports: local name -> import path
@@ -271,11 +301,13 @@ func metaDataABI(repo, rel string) []abiEntry {
 		return true
 	})
 	if !found {
-		die("%s: no bind.MetaData{ABI: \"...\"} literal", rel)
+		warn("%s: no bind.MetaData{ABI: \"...\"} literal", rel)
+		return nil
 	}
 	var entries []abiEntry
 	if err := json.Unmarshal([]byte(raw), &entries); err != nil {
-		die("%s: ABI JSON: %v", rel, err)
+		warn("%s: ABI JSON: %v", rel, err)
+		return nil
 	}
 	var evs []abiEntry
 	for _, e := range entries {
@@ -294,35 +326,39 @@ type handlerInfo struct {
 	msgs  []string // message type names of composite literals &x.MsgY{}
 }
 
-// handlers of adapter/<pkg>/handler.go by method name
-func handlerInfos(repo, rel string) map[string]handlerInfo {
-	_, f := parseFile(repo, rel)
+// handlerInfos: every method of the package (any file) that calls syscontracts.ParseLog with a literal event name:
+// the event names it parses and the Msg* composite literals it builds, by method name.
+func handlerInfos(files []*ast.File) map[string]handlerInfo {
 	out := map[string]handlerInfo{}
-	for _, d := range f.Decls {
-		fd, ok := d.(*ast.FuncDecl)
-		if !ok || fd.Recv == nil || fd.Body == nil {
-			continue
-		}
-		var hi handlerInfo
-		ast.Inspect(fd.Body, func(n ast.Node) bool {
-			switch x := n.(type) {
-			case *ast.CallExpr:
-				if _, name, ok := sel(x.Fun); ok && name == "ParseLog" && len(x.Args) >= 4 {
-					if bl, ok := x.Args[3].(*ast.BasicLit); ok && bl.Kind == token.STRING {
-						s, _ := strconv.Unquote(bl.Value)
-						hi.parse = append(hi.parse, s)
-					} else {
-						hi.parse = append(hi.parse, "?")
+	for _, f := range files {
+		for _, d := range f.Decls {
+			fd, ok := d.(*ast.FuncDecl)
+			if !ok || fd.Recv == nil || fd.Body == nil {
+				continue
+			}
+			var hi handlerInfo
+			ast.Inspect(fd.Body, func(n ast.Node) bool {
+				switch x := n.(type) {
+				case *ast.CallExpr:
+					if _, name, ok := sel(x.Fun); ok && name == "ParseLog" && len(x.Args) >= 4 {
+						if bl, ok := x.Args[3].(*ast.BasicLit); ok && bl.Kind == token.STRING {
+							s, _ := strconv.Unquote(bl.Value)
+							hi.parse = append(hi.parse, s)
+						} else {
+							hi.parse = append(hi.parse, "?")
+						}
+					}
+				case *ast.CompositeLit:
+					if _, name, ok := sel(x.Type); ok && strings.HasPrefix(name, "Msg") {
+						hi.msgs = append(hi.msgs, name)
 					}
 				}
-			case *ast.CompositeLit:
-				if _, name, ok := sel(x.Type); ok && strings.HasPrefix(name, "Msg") {
-					hi.msgs = append(hi.msgs, name)
-				}
+				return true
+			})
+			if len(hi.parse) > 0 {
+				out[fd.Name.Name] = hi
 			}
-			return true
-		})
-		out[fd.Name.Name] = hi
+		}
 	}
 	return out
 }
@@ -330,63 +366,112 @@ func handlerInfos(repo, rel string) map[string]handlerInfo {
 type adapterInfo struct {
 	addrConst string      // name of the syscontracts constant the hook filters on ("" = unresolved)
 	table     [][2]string // event name -> handler method, in source order
-	dflt      string      // "panic" when the switch's default panics, else "other"/"none"
 }
 
-func adapterTable(repo, rel string) adapterInfo {
-	_, f := parseFile(repo, rel)
-	imp := imports(f)
-	fd := funcDecl(f, false, "NewHookAdapter")
-	if fd == nil {
-		die("%s: func NewHookAdapter not found", rel)
+func strLit(e ast.Expr) (string, bool) {
+	if bl, ok := e.(*ast.BasicLit); ok && bl.Kind == token.STRING {
+		s, err := strconv.Unquote(bl.Value)
+		return s, err == nil
 	}
+	return "", false
+}
+
+// methodValue: `x.M` where M is one of the handler methods.
+func methodValue(e ast.Expr, handlers map[string]handlerInfo) (string, bool) {
+	if _, m, ok := sel(e); ok {
+		if _, is := handlers[m]; is {
+			return m, true
+		}
+	}
+	return "", false
+}
+
+// adapterTable finds, anywhere in the package, the association event name -> handler method, in any of the forms
+//
+//	switch name { case "E": ... = x.M }                      (case clause with literal names and one method value)
+//	map[...]...{"E": x.M, ...}                                (key/value element of a composite literal)
+//	[]T{{event: "E", handle: x.M}, {"E", x.M}, ...}           (struct element holding one string literal and one method value)
+//
+// and the syscontracts address constant given to common.HexToAddress.  How the table is registered (a loop, a helper
+// method, a lookup map) is behaviour the differential run checks, not this translator.
+func adapterTable(files []*ast.File, handlers map[string]handlerInfo) adapterInfo {
 	var ai adapterInfo
-	ai.dflt = "none"
-	ast.Inspect(fd.Body, func(n ast.Node) bool {
-		switch x := n.(type) {
-		case *ast.CallExpr:
-			// common.HexToAddress(syscontracts.XContractAddress)
-			if _, name, ok := sel(x.Fun); ok && name == "HexToAddress" && len(x.Args) == 1 {
-				if p, c, ok := sel(x.Args[0]); ok && strings.HasSuffix(imp[p], "/syscontracts") {
-					ai.addrConst = c
+	seen := map[[2]string]bool{}
+	add := func(ev, m string) {
+		k := [2]string{ev, m}
+		if !seen[k] {
+			seen[k] = true
+			ai.table = append(ai.table, k)
+		}
+	}
+	for _, f := range files {
+		imp := imports(f)
+		ast.Inspect(f, func(n ast.Node) bool {
+			switch x := n.(type) {
+			case *ast.CallExpr:
+				if _, name, ok := sel(x.Fun); ok && name == "HexToAddress" && len(x.Args) == 1 {
+					if p, c, ok := sel(x.Args[0]); ok && strings.HasSuffix(imp[p], "/syscontracts") {
+						ai.addrConst = c
+					}
 				}
-			}
-		case *ast.SwitchStmt:
-			for _, st := range x.Body.List {
-				cc := st.(*ast.CaseClause)
-				if cc.List == nil {
-					ai.dflt = "other"
-					for _, s := range cc.Body {
-						if es, ok := s.(*ast.ExprStmt); ok {
-							if ce, ok := es.X.(*ast.CallExpr); ok {
-								if id, ok := ce.Fun.(*ast.Ident); ok && id.Name == "panic" {
-									ai.dflt = "panic"
-								}
+			case *ast.CaseClause:
+				var names []string
+				for _, e := range x.List {
+					if s, ok := strLit(e); ok {
+						names = append(names, s)
+					}
+				}
+				if len(names) == 0 {
+					return true
+				}
+				var methods []string
+				for _, st := range x.Body {
+					ast.Inspect(st, func(m ast.Node) bool {
+						if e, ok := m.(ast.Expr); ok {
+							if mv, ok := methodValue(e, handlers); ok {
+								methods = append(methods, mv)
+								return false
 							}
 						}
-					}
-					continue
+						return true
+					})
 				}
-				method := "?"
-				for _, s := range cc.Body {
-					if as, ok := s.(*ast.AssignStmt); ok && len(as.Rhs) == 1 {
-						if _, m, ok := sel(as.Rhs[0]); ok {
-							method = m
+				for _, nm := range names {
+					for _, mv := range methods {
+						add(nm, mv)
+					}
+				}
+			case *ast.CompositeLit:
+				for _, el := range x.Elts {
+					switch e := el.(type) {
+					case *ast.KeyValueExpr:
+						if s, ok := strLit(e.Key); ok {
+							if mv, ok := methodValue(e.Value, handlers); ok {
+								add(s, mv)
+							}
+						}
+					case *ast.CompositeLit:
+						var strs, mvs []string
+						for _, fe := range e.Elts {
+							v := fe
+							if kv, ok := fe.(*ast.KeyValueExpr); ok {
+								v = kv.Value
+							}
+							if s, ok := strLit(v); ok {
+								strs = append(strs, s)
+							} else if mv, ok := methodValue(v, handlers); ok {
+								mvs = append(mvs, mv)
+							}
+						}
+						if len(strs) == 1 && len(mvs) == 1 {
+							add(strs[0], mvs[0])
 						}
 					}
 				}
-				for _, e := range cc.List {
-					if bl, ok := e.(*ast.BasicLit); ok && bl.Kind == token.STRING {
-						s, _ := strconv.Unquote(bl.Value)
-						ai.table = append(ai.table, [2]string{s, method})
-					} else {
-						ai.table = append(ai.table, [2]string{"?", method})
-					}
-				}
 			}
-		}
-		return true
-	})
+			return true
+		})
+	}
 	return ai
 }
 
@@ -506,8 +591,9 @@ func main() {
 			evItems = append(evItems, fmt.Sprintf("(* %s *)\n   {| ge_contract := %s; ge_name := %s; ge_anonymous := %v; ge_inputs := [%s];\n      ge_id := %s |}",
 				signature, c.id, coqBytes([]byte(e.Name)), e.Anonymous, strings.Join(ins, "; "), coqBytes(keccak256([]byte(signature)))))
 		}
-		ai := adapterTable(*repo, "adapter/"+c.dir+"/adapter.go")
-		his := handlerInfos(*repo, "adapter/"+c.dir+"/handler.go")
+		pkg := packageFiles(*repo, "adapter/"+c.dir)
+		his := handlerInfos(pkg)
+		ai := adapterTable(pkg, his)
 		for _, row := range ai.table {
 			hi := his[row[1]]
 			var ps, ms []string
@@ -520,8 +606,8 @@ func main() {
 			tblItems = append(tblItems, fmt.Sprintf("(* %s -> %s: ParseLog %v, builds %v *)\n   {| gh_contract := %s; gh_event := %s; gh_parses := [%s]; gh_msgs := [%s] |}",
 				row[0], row[1], hi.parse, hi.msgs, c.id, coqBytes([]byte(row[0])), strings.Join(ps, "; "), strings.Join(ms, "; ")))
 		}
-		addrItems = append(addrItems, fmt.Sprintf("(%s, %s) (* adapter/%s filters on syscontracts.%s; unknown events: %s *)",
-			c.id, coqBytes(addrOf(ai.addrConst)), c.dir, ai.addrConst, ai.dflt))
+		addrItems = append(addrItems, fmt.Sprintf("(%s, %s) (* adapter/%s filters on syscontracts.%s *)",
+			c.id, coqBytes(addrOf(ai.addrConst)), c.dir, ai.addrConst))
 	}
 	fmt.Fprintf(&b, "(* the address each adapter's PostTxProcessing compares log.Address with *)\nDefinition gen_hook_addr : list (whook * bytes) :=\n  %s.\n\n", coqList(addrItems))
 	fmt.Fprintf(&b, "(* events of the contracts' ABI (sorted by name); ge_id = keccak256(signature) *)\nDefinition gen_events : list gevent :=\n  %s.\n\n", coqList(evItems))
@@ -530,8 +616,9 @@ func main() {
 	// app.go
 	_, af := parseFile(*repo, "app/app.go")
 	nt := funcDecl(af, false, "NewTeleport")
-	if nt == nil {
-		die("app/app.go: func NewTeleport not found")
+	if nt == nil || nt.Body == nil {
+		warn("app/app.go: func NewTeleport not found")
+		nt = &ast.FuncDecl{Name: ast.NewIdent("NewTeleport"), Body: &ast.BlockStmt{}}
 	}
 	r := &resolver{imp: imports(af), assigns: map[string][]ast.Expr{}}
 	ast.Inspect(nt.Body, func(n ast.Node) bool {
@@ -608,7 +695,7 @@ func main() {
 		return true
 	})
 	if !hooksSeen {
-		die("app/app.go: no evmkeeper.NewMultiEvmHooks(...) call in NewTeleport")
+		warn("app/app.go: no evmkeeper.NewMultiEvmHooks(...) call in NewTeleport")
 	}
 	fmt.Fprintf(&b, "(* app.go: evmkeeper.NewMultiEvmHooks(...) in order *)\nDefinition gen_evm_hooks : list whook := [%s].\n\n", strings.Join(hooks, "; "))
 	fmt.Fprintf(&b, "(* app.go: the bank keeper given to stakingkeeper.NewKeeper / govkeeper.NewKeeper, and the one behind the staking\n   keeper given to slashingkeeper.NewKeeper *)\n")
